@@ -348,6 +348,7 @@ def run(ctx, replay=None):
 
     # ---- correspondence: __dask_keys__ grid and the RootAlias/materialize model vs the Lean model
     correspondence(ctx)
+    t_run = time.time()
 
     # ---- search + contract monitoring
     n = ctx.scale(400, 6000)
@@ -397,7 +398,7 @@ def correspondence(ctx):
     ctx.correspond("keys-grid", pairs)
     # RootAlias: alias layer of the real RootAlias vs model
     from dask_array._expr import RootAlias
-    from dask_array._materialize import _materialize
+    from dask_array._materialize import _lower, _materialize
 
     pairs = []
     for _ in range(ctx.scale(60, 600)):
@@ -407,6 +408,8 @@ def correspondence(ctx):
         y = (x + 1)[tuple(slice(0, rng.randint(1, s)) for s in shape)]
         with dask.config.set({"array.optimize-graph": True}):
             m = _materialize(y.expr)
+            # did optimization rename the root?  (decided independently of what _materialize returned)
+            opt_name = _lower(y.expr, True).fuse()._name
         nb = ",".join(map(str, y.numblocks))
         if isinstance(m, RootAlias):
             layer = m._layer()
@@ -422,7 +425,7 @@ def correspondence(ctx):
         else:
             impl = "ok same"
             inner = "0"
-        renamed = "1" if isinstance(m, RootAlias) else "0"
+        renamed = "1" if opt_name != y.expr._name else "0"
         pairs.append((f"gr.materialize {renamed} {inner} {nb}", impl))
     # the embedded-root guard (cannot be reached through the public API today): exercise the guard condition
     pairs.append(("gr.materialize 1 1 2,2", "err RuntimeError"))
